@@ -26,6 +26,15 @@ Inductive tvalid_e : otree -> jval -> Prop :=
 | te_obj_null props req ap : tvalid_e (OObj props req ap true) (JLit w_null_lit)
 | te_ref_null n : tvalid_e (ORef n true) (JLit w_null_lit)
 | te_ref n nu t v : plookup n comps = Some t -> tvalid_e t v -> tvalid_e (ORef n nu) v
+| te_ap ap v : ap_ok ap v -> tvalid_e (OAp ap) v
+| te_ap_ref n t v : plookup n comps = Some t -> tvalid_e t v -> tvalid_e (OAp (APRef n)) v
+| te_objk_null props req extra : tvalid_e (OObjK props req extra true) (JLit w_null_lit)
+| te_objk props req extra nu ms :
+    (forall k, In k req -> exists v, In (k, v) ms) ->
+    (forall k v, In (k, v) ms ->
+       (exists p, plookup k props = Some p /\ tvalid_e p v) \/
+       (plookup k props = None /\ exists it, In it extra /\ tvalid_e it v)) ->
+    tvalid_e (OObjK props req extra nu) (JObj ms)
 | te_choice_null names : tvalid_e (OChoice names true) (JLit w_null_lit)
 | te_choice names nu n t v : In n names -> plookup n comps = Some t -> tvalid_e t v -> tvalid_e (OChoice names nu) v
 | te_arr items mn mx nu vs :
@@ -56,6 +65,7 @@ Fixpoint example_e (fuel : nat) (n : snode) : option jval :=
     | SOr ex _ _ => Some (JLit ex)
     | SArr items _ _ _ => option_map JArr (all_some (map (example_e f) items))
     | SObj ms _ _ => option_map JObj (all_some (map (fun m => option_map (fun v => (fst m, v)) (example_e f (snd (snd m)))) ms))
+    | SObjK _ _ _ _ => None            (* the example needs the key of each shortcut: the example of a string type; judged by the validator *)
     | SRef r _ => match plookup r types with Some t => example_e f t | None => None end
     | SChoice names _ => match names with
                          | r :: _ => match plookup r types with Some t => example_e f t | None => None end      (* the first alternative *)
